@@ -2,7 +2,8 @@ import ArrModel.Manip
 /-!
 # ArrModel.Split — `array_split`, `split`, `split_axis`, `hsplit`, `vsplit`, `dsplit`
 
-Mirrors `src/core/operations/split.rs:148-246` (after the `fix:` commit for `array_split`).
+Mirrors `src/core/operations/split.rs:148-246` (after the `fix:` commits for `array_split`;
+`array_split` / `split` validate the DEFAULTED axis `axis.unwrap_or(0)`, /repo 3685e2a).
 -/
 namespace ArrModel
 
@@ -25,7 +26,7 @@ variable {α : Type}
 /-- `array_split(parts, axis)` -/
 def arraySplit (a : Arr α) (zero : α) (parts : Nat) (axis : Option Nat) : Res (List (Arr α)) :=
   if parts = 0 then .err .ParameterError
-  else if (match axis with | some ax => decide (ax ≥ a.ndim) | none => false) then .err .AxisOutOfBounds
+  else if decide (axis.getD 0 ≥ a.ndim) then .err .AxisOutOfBounds
   else if a.isEmpty then .ok [a]
   else
     let ax := axis.getD 0
@@ -44,7 +45,7 @@ def arraySplit (a : Arr α) (zero : α) (parts : Nat) (axis : Option Nat) : Res 
 
 /-- `split(parts, axis)` -/
 def split (a : Arr α) (zero : α) (parts : Nat) (axis : Option Nat) : Res (List (Arr α)) :=
-  if (match axis with | some ax => decide (ax ≥ a.ndim) | none => false) then .err .AxisOutOfBounds
+  if decide (axis.getD 0 ≥ a.ndim) then .err .AxisOutOfBounds
   else if parts = 0 then .err .ParameterError
   else if a.isEmpty then .ok [a]
   else
